@@ -268,6 +268,9 @@ func (im *Impl) RealKey(canon string) string {
 
 // Canon replaces every known uuid (keys and session ids) in s by its canonical name.
 func (im *Impl) Canon(s string) string {
+	if c, ok := im.sidCanon[s]; ok { // session ids need not look like uuids
+		return c
+	}
 	if len(s) < 36 {
 		return s
 	}
@@ -373,7 +376,9 @@ func (im *Impl) Exec(o Op) (r Resp) {
 		ctx, cancel := context.WithCancel(context.Background())
 		uuid, sctx := im.LS.CreateSession(ctx, map[string]any{})
 		im.sess[o.Sid] = &sessRec{uuid: uuid, ctx: sctx, cancel: cancel}
-		im.sidCanon[uuid] = o.Sid
+		if _, reused := im.sidCanon[uuid]; !reused { // an id handed out twice keeps its first name: the entries it aliases stay visible
+			im.sidCanon[uuid] = o.Sid
+		}
 	case "disconnect":
 		if s, ok := im.sess[o.Sid]; ok {
 			s.cancel()
